@@ -5,7 +5,7 @@ use super::{
     cow_slice::CowSlice,
     definition::{Definition, DefinitionMap, DefinitionState},
     engine::Engine,
-    error::HintError,
+    error::{HintError, HintErrorKind},
     graphics::RetainedGraphicsState,
     program::{Program, ProgramState},
     value_stack::ValueStack,
@@ -107,6 +107,24 @@ impl HintInstance {
         outline: &mut HintOutline,
         is_pedantic: bool,
     ) -> Result<(), HintError> {
+        // The outline's buffers are sized for the font the glyph belongs to.
+        // If this instance was configured for a different font they may not
+        // match; report that as an error rather than panicking below.
+        let mismatch = |kind| HintError {
+            program: Program::Glyph,
+            glyph_id: Some(outline.glyph_id),
+            pc: 0,
+            opcode: None,
+            kind,
+        };
+        if outline.twilight_original_scaled.len() != self.twilight_original_scaled.len()
+            || outline.twilight_scaled.len() != self.twilight_scaled.len()
+            || outline.twilight_flags.len() != self.twilight_flags.len()
+        {
+            return Err(mismatch(HintErrorKind::InvalidPointIndex(
+                self.twilight_scaled.len(),
+            )));
+        }
         // Twilight zone
         let twilight_count = outline.twilight_scaled.len();
         let twilight_contours = [twilight_count as u16];
@@ -133,8 +151,10 @@ impl HintInstance {
             outline.contours,
         );
         let value_stack = ValueStack::new(outline.stack, is_pedantic);
-        let cvt = CowSlice::new(&self.cvt, outline.cvt).unwrap();
-        let storage = CowSlice::new(&self.storage, outline.storage).unwrap();
+        let cvt = CowSlice::new(&self.cvt, outline.cvt)
+            .map_err(|_| mismatch(HintErrorKind::InvalidCvtIndex(self.cvt.len())))?;
+        let storage = CowSlice::new(&self.storage, outline.storage)
+            .map_err(|_| mismatch(HintErrorKind::InvalidStorageIndex(self.storage.len())))?;
         let mut engine = Engine::new(
             outlines,
             ProgramState::new(
